@@ -319,6 +319,10 @@ func rewritePackageOpt(pkg *packages.Package, outDir string, replace map[string]
 					rep.ReadSites = append(rep.ReadSites, relSite(fset, x.Pos()))
 					keep = append(keep, text(x.Fun))
 					add(off(x.Fun.Pos()), off(x.Fun.End()), q+"ReadFile")
+				case pkgOf(sel.X) == "os" && sel.Sel.Name == "Open" && len(x.Args) == 1:
+					rep.ReadSites = append(rep.ReadSites, relSite(fset, x.Pos())+" (os.Open)")
+					keep = append(keep, text(x.Fun))
+					add(off(x.Fun.Pos()), off(x.Fun.End()), q+"Open")
 				case sel.Sel.Name == "MapKeys" && len(x.Args) == 0:
 					if t := info.Types[sel.X].Type; t != nil && t.String() == "reflect.Value" {
 						site := relSite(fset, x.Pos())
